@@ -17,12 +17,18 @@ open ArgMapper ArgMapper.GraphSpec
 
 structure Res where
   conform : Option String := none      -- none = ok
-  prop    : Option String := none      -- none = ok
+  prop    : Option String := none      -- none = ok   (single-property kinds)
   propNA  : Bool := false
+  /-- verdicts for further properties: (id, "ok" | "na" | "FAIL:…") -/
+  props   : List (String × String) := []
   stats   : List String := []
 
-def Res.line (kind id : String) (r : Res) : String :=
-  s!"res {kind} {id} conform={match r.conform with | none => "ok" | some m => "DIVERGE:" ++ m} prop={if r.propNA then "na" else match r.prop with | none => "ok" | some m => "FAIL:" ++ m}" ++
+def Res.line (kind id pid : String) (r : Res) : String :=
+  let c := match r.conform with | none => "ok" | some m => "DIVERGE:" ++ m
+  let p := if r.propNA then "na" else match r.prop with | none => "ok" | some m => "FAIL:" ++ m
+  let main := if pid = "" then "" else s!" p.{pid}={p}"
+  let more := String.join (r.props.map (fun q => s!" p.{q.1}={q.2}"))
+  s!"res {kind} {id} conform={c}{main}{more}" ++
   (if r.stats.isEmpty then "" else " " ++ " ".intercalate r.stats)
 
 def noSpace (s : String) : String := s.replace " " "_"
